@@ -6,10 +6,14 @@ pub mod c01;
 pub mod c02;
 pub mod hist;
 pub mod c03;
+pub mod c06;
+pub mod c08;
+pub mod c09;
+pub mod c11;
 
 use crate::engine::{json, Case, Run};
 
-pub const ALL: [&str; 3] = ["C01", "C02", "C03"];
+pub const ALL: [&str; 7] = ["C01", "C02", "C03", "C06", "C08", "C09", "C11"];
 
 pub fn known(id: &str) -> bool {
     ALL.contains(&id)
@@ -20,6 +24,10 @@ pub fn run(run: &Run) {
         "C01" => c01::run(run),
         "C02" => c02::run(run),
         "C03" => c03::run(run),
+        "C06" => c06::run(run),
+        "C08" => c08::run(run),
+        "C09" => c09::run(run),
+        "C11" => c11::run(run),
         _ => unreachable!(),
     }
 }
@@ -30,6 +38,10 @@ pub fn replay_case(prop: &str, case: &Case) -> Result<Result<(), (String, String
         "C01" => c01::replay(case),
         "C02" => c02::replay(case),
         "C03" => c03::replay(case),
+        "C06" => c06::replay(case),
+        "C08" => c08::replay(case),
+        "C09" => c09::replay(case),
+        "C11" => c11::replay(case),
         _ => Err(format!("unknown property {}", prop)),
     }
 }
@@ -52,6 +64,22 @@ pub fn replay_file(path: &str) -> i32 {
     let prop = j.get("property").and_then(|x| x.as_str()).unwrap_or("").to_string();
     let case_s = j.get("case").and_then(|x| x.as_str()).unwrap_or("").to_string();
     let case = Case::parse(&case_s);
+    if case.opt("prof") == Some("checked") && crate::engine::profile() != "checked" {
+        // the case was observed in the checked-profile binary: replay it there
+        return match std::env::var("LSX_CHECKED") {
+            Ok(exe) => match std::process::Command::new(exe).arg("replay").arg(path).status() {
+                Ok(st) => st.code().unwrap_or(2),
+                Err(e) => {
+                    eprintln!("MACHINERY-ERROR cannot run the checked binary: {}", e);
+                    2
+                }
+            },
+            Err(_) => {
+                eprintln!("MACHINERY-ERROR LSX_CHECKED not set (use ./check replay)");
+                2
+            }
+        };
+    }
     // the same case is executed twice: a replay must be deterministic before it is believed
     let r1 = replay_case(&prop, &case);
     let r2 = replay_case(&prop, &case);
@@ -83,7 +111,32 @@ pub fn replay_file(path: &str) -> i32 {
 }
 
 /// Sub-process entry points (profile-sensitive parts run in the `checked` binary).
-pub fn sub(name: &str, _args: &[String], _seed: u64) -> i32 {
-    eprintln!("unknown sub-command {}", name);
-    2
+pub fn sub(name: &str, args: &[String], seed: u64) -> i32 {
+    match name {
+        // lsx sub run <prop> <tier>: run the property's profile-sensitive part in this binary
+        // and print the run as JSON (used by the release-profile parent, CONFIG mode)
+        "run" if args.len() >= 2 => {
+            let tier = if args[1] == "thorough" { crate::engine::Tier::Thorough } else { crate::engine::Tier::Quick };
+            let mut r = Run::new(&args[0], tier, seed);
+            r.silent = true;
+            crate::engine::start_watchdog(tier);
+            match args[0].as_str() {
+                "C08" => c08::iterator_part(&r),
+                "C11" => c11::explore_all(&r),
+                _ => {
+                    eprintln!("no child part for {}", args[0]);
+                    return 2;
+                }
+            }
+            #[allow(unreachable_code)]
+            {
+                print!("{}", crate::engine::run_to_json(&r).dump());
+                0
+            }
+        }
+        _ => {
+            eprintln!("unknown sub-command {}", name);
+            2
+        }
+    }
 }
